@@ -9,4 +9,12 @@ MCPieces == {<<1, 1>>, <<1, 2>>, <<1, 3>>,        \* long-lived, front
              <<3, 3>>,                            \* inside one capture
              <<4, 1>>, <<4, 4>>,                  \* first and last capture only
              <<5, 2>>, <<5, 3>>, <<5, 4>>}        \* long-lived, end
+
+\* five captures, any numbering of new streams, no restarts (restarts do not exist in the abstract state)
+MC5Pieces == {<<1, 1>>, <<1, 3>>, <<1, 5>>,       \* every other capture
+              <<2, 2>>, <<2, 3>>, <<2, 4>>,       \* the middle
+              <<3, 1>>, <<3, 2>>,                 \* front
+              <<4, 4>>, <<4, 5>>,                 \* end
+              <<5, 1>>, <<5, 5>>,                 \* first and last only
+              <<6, 3>>}                           \* one capture
 =============================================================================
